@@ -56,7 +56,7 @@ def c03_judge(entry: str, content: str, o: tuple) -> str | None:
 def c11_problems(content: str, o: tuple) -> list[str]:
     """Which clauses of C11 the SyntaxError outcome `o` breaks for the delivered `content` (lenient:
     judged against whichever newline view — raw or universal — fits best)."""
-    _, _cls, msg, filename, lineno, offset, end_lineno, end_offset, text, _site = o
+    _, _cls, msg, filename, lineno, offset, end_lineno, end_offset, text, _site = o[:10]
     common = []
     if not isinstance(msg, str) or not msg.strip():
         common.append("msg")
